@@ -95,12 +95,17 @@ def raised_in_implementation(e):
         last = e
         e = e.__cause__ or e.__context__
     frames = traceback.extract_tb(last.__traceback__)
-    if not frames:
-        return None
-    fr = frames[-1]
-    if os.path.abspath(fr.filename).startswith(root):
-        return '%s:%s' % (os.path.relpath(fr.filename, os.path.dirname(root.rstrip(os.sep))),
-                          fr.name)
+    here = os.path.dirname(os.path.abspath(__file__)) + os.sep
+    # the innermost frame that belongs to the library or to the harness decides
+    # (frames of the standard library in between - a pipe that the library's
+    #  worker broke, a copy the library asked for - are passed over)
+    for fr in reversed(frames):
+        name = os.path.abspath(fr.filename)
+        if name.startswith(root):
+            return '%s:%s' % (os.path.relpath(fr.filename, os.path.dirname(root.rstrip(os.sep))),
+                              fr.name)
+        if name.startswith(here):
+            return None
     return None
 
 
